@@ -712,7 +712,7 @@ func c19Vector(c *Ctx, raw stdjson.RawMessage) {
 func c19Replay(c *Ctx, raw stdjson.RawMessage) {
 	var k c19Case
 	if stdjson.Unmarshal(raw, &k) == nil {
-		if strings.HasPrefix(k.Mode, "literal:lengths") {
+		if strings.HasPrefix(k.Mode, "literal:lengths") || strings.HasPrefix(k.Mode, "literal:unexported") {
 			c19Lengths(c)
 			return
 		}
@@ -789,7 +789,59 @@ func c19Literals(c *Ctx) {
 
 // c19Lengths: a templated nested message whose rewritten encoding is shorter or longer than the one in the input, across
 // the sizes at which the length prefix changes width (128, 16384), one and two levels down
+// c19Unexported: fields without tags are numbered by counting the exported fields; unexported fields in front of and
+// between them (the codecs skip them) must not shift the numbers that the names of a template resolve to
+type c19Naked struct {
+	ID    int32
+	dirty bool //nolint
+	Name  string
+	cache []byte //nolint
+	Count int64
+	state struct{ a, b int } //nolint
+	Note  string
+	Flags []int32
+}
+
+func c19Unexported(c *Ctx) {
+	vals := []c19Naked{{ID: 1, Name: "n", Count: 3, Note: "note", Flags: []int32{1, 2}}, {}, {Count: 9}, {ID: 5, Note: "only"}}
+	tmpls := []struct {
+		text  string
+		apply func(v *c19Naked)
+	}{
+		{`{"Count": 42}`, func(v *c19Naked) { v.Count = 42 }},
+		{`{"Name": "x"}`, func(v *c19Naked) { v.Name = "x" }},
+		{`{"Note": "n2", "ID": 7}`, func(v *c19Naked) { v.Note, v.ID = "n2", 7 }},
+		{`{"ID": 9, "Name": "a", "Count": 1, "Note": "b"}`, func(v *c19Naked) { v.ID, v.Name, v.Count, v.Note = 9, "a", 1, "b" }},
+	}
+	for ti, tm := range tmpls {
+		k := c19Case{Mode: fmt.Sprintf("literal:unexported template=%d", ti)}
+		var rw proto.Rewriter
+		var err error
+		if p := protect(func() { rw, err = proto.ParseRewriteTemplate(proto.TypeOf(reflect.TypeOf(c19Naked{})), []byte(tm.text)) }); p != "" || err != nil {
+			c.Diverge("C19", "proto.ParseRewriteTemplate(struct with unexported fields between the others)", "a Rewriter", fmt.Sprintf("%v %s", err, p), "", k)
+			continue
+		}
+		for _, v := range vals {
+			in, _ := proto.Marshal(v)
+			want := v
+			tm.apply(&want)
+			var out []byte
+			c.Case()
+			c.Eval(1)
+			if p := protect(func() { out, err = rw.Rewrite(nil, in) }); p != "" || err != nil {
+				c.Diverge("C19", "Rewriter.Rewrite(struct with unexported fields between the others)", "a message", fmt.Sprintf("%v %s", err, p), "", k)
+				continue
+			}
+			var got c19Naked
+			if e := proto.Unmarshal(out, &got); e != nil || !reflect.DeepEqual(got, want) {
+				c.Diverge("C19", "Unmarshal(Rewrite(in))(struct with unexported fields between the others)", fmt.Sprintf("%+v", want), fmt.Sprintf("%+v err=%v out=%x", got, e, out), "", k)
+			}
+		}
+	}
+}
+
 func c19Lengths(c *Ctx) {
+	c19Unexported(c)
 	lens := []int{0, 1, 126, 127, 128, 129, 200, 16382, 16383, 16384, 16390}
 	for _, depth := range []int{1, 2} {
 		for _, lt := range []int{0, 1, 5, 126, 128, 131, 16384} {
